@@ -36,7 +36,7 @@ CLAIMS = {
  "C08": ("other", "6.C08", "Partial: get_space / select_dependents / is_in / is_eq compared per input with the Lean-verified commutator closure (all 4^n single queries for "
          "n<=3, sampled query sets to n=5/6); model of the membership pipeline tied by correspondence. Membership correctness for all inputs is not proved.",
          "Lean-verified closure checker per query + differential correspondence"),
- "C09": ("other", "6.C09", "Partial: get_dla_dim == size of the Lean-verified closure (n<=6) and == dimension of the reported name (Lean dimension function, any n to 10/14 qubits).",
+ "C09": ("other", "6.C09", "Proved in Lean for EVERY classification (C09_name_dim): get_dla_dim() answers iff get_algebra() answers and equals the sum over the summands of the reported name of multiplicity x dimension (u(1) = 1) — the model of the two methods is tied to the code by correspondence. Partial for the first clause: get_dla_dim == size of the Lean-verified closure per input (n<=6); name-dimension consistency also checked on the implementation at any n (to 10/14 qubits).",
          "Lean-verified closure size + name-dimension arithmetic per input + differential correspondence"),
  "C10": ("proof", "6.C10", "Lean refinement proof, parametric in the classifier: abstract state = list of generators, abstract step = the plain list edit; invariant "
          "'cache empty or = classify(current list)' is kept by every one of the 9 public edits with every argument (error exits included) and by every query; "
